@@ -25,7 +25,13 @@ RULE = ("(1) value tables: Nodes.typed_value on every text of length <= 3 over a
         "under keys and in lists, aliases of whole source maps), loaded with the tool's loader, x a set at the own key / "
         "index of up to 6 scalars per document (anchored ones first): the physical document (own keys in order, merge "
         "references, anchors, container sharing) is as before except the matched scalar and the scalars carrying its anchor, "
-        "which hold the new value; dump + strict reload gives the same physical document.  "
+        "which hold the new value; dump + strict reload gives the same physical document; "
+        "(5) real code only (exponent reprs are outside the model's float domain): floats of every magnitude - sign x 1-4 digit "
+        "mantissa x 10**e, e in -17..25, i.e. plain reprs and exponent reprs both ways (|x| < 1e-4, |x| >= 1e16) - written by "
+        "set_value as a float object, as numeric text in DEFAULT format and as text with value_format=FLOAT, at exact paths and "
+        "generated paths of seeded documents (anchored targets with aliases included): in memory the matched scalars and their "
+        "aliases hold exactly that number and nothing else changed; after dump + strict reload the reloaded number == the "
+        "written number.  "
         "Sizes: quick 12 000 documents x 3 edits, 2 500 histories, 1 200 merge-key documents; thorough 150 000 documents x 3 "
         "edits, 40 000 histories, 12 000 merge-key documents (trimmed from 200 000 / 20 000 to keep the thorough tier under "
         "~20 min on a loaded 16-core machine; the value tables of (1) stay exhaustive in both tiers; all histories of one "
@@ -105,6 +111,9 @@ def run(chk: core.Check):
         mcases = gen_merge_cases(rng, 1200 if quick else 12000)
         chk.extra_cov["merge_key_document_cases"] = len(mcases)
         cases += mcases
+        fcases = gen_float_cases(rng, 4500 if quick else 60000)
+        chk.extra_cov["float_magnitude_cases"] = len(fcases)
+        cases += fcases
         rng.shuffle(cases)
         chunks = core.chunked(cases, 64)
     results = core.pmap(_job, chunks)
@@ -305,7 +314,7 @@ def mk_load(text):
     return data if ok else None
 
 
-def mk_phys(root, anchors=True):
+def mk_phys(root, anchors=True, ids_out=None):
     """The physical document as a table of containers (numbered in first-visit order; a shared container appears once):
     mapping = own keys in order with their values + merge references + anchor, sequence = items + anchor;
     scalars inline as [canonical value, anchor]."""
@@ -329,6 +338,8 @@ def mk_phys(root, anchors=True):
             raise codec.OutOfModel("plain container")
         return ["s", codec.scalar_to_json(n), codec.anchor_of(n) if anchors else None]
     visit(root)
+    if ids_out is not None:
+        ids_out.update(ids)
     return out
 
 
@@ -504,6 +515,170 @@ def mk_roundtrip(data):
     return "ok" if same else "data-differs\n" + buf.getvalue()
 
 
+# --------------------------------------------------------------------------- floats of every magnitude (real code only)
+#
+# Floats whose repr() is in exponent form (|x| < 1e-4 or |x| >= 1e16) are outside the (m, e) domain the value tables
+# exercise; the clauses of the property are judged directly on the real code: after set_value writes the float (as a
+# float object, as numeric text in DEFAULT format, or as text with value_format=FLOAT) every matched scalar and every
+# scalar carrying a matched node's anchor holds exactly that number (anchor kept), the rest of the document is as
+# before, and the dump with the tool's editor reloads with its strict loader to the same data - the reloaded number
+# == the written number.
+
+FLOAT_FIXED = [3.75, -0.5, 0.001, 0.0001, 9.9e-05, 123456.789, 1e15, 1e16, 2e-05, -1.25e-05, 1e-07, 1.5e-10, 1e-15,
+               -4e+20, 1e+22, 1.23e+25, 1.5e+17, 7e-12, 0.000123, 12345678.9, 1e-16, 0.1 + 0.2, 1.0 / 3, 1e-300, 3.3e-16]
+FLOAT_MODES = ["obj", "text", "fmt"]
+
+
+def gen_float(rng):
+    """sign x 1-4 digit mantissa x 10**e, e from -17 to 25: ordinary reprs, exponent reprs both ways."""
+    r = rng.random()
+    if r < 0.2:
+        return rng.choice(FLOAT_FIXED)
+    digits = rng.choice([1, 1, 2, 3, 4])
+    m = rng.randrange(10 ** (digits - 1), 10 ** digits)
+    if r < 0.55:
+        e = rng.randint(-17, -5)           # small: repr uses a negative exponent
+    elif r < 0.8:
+        e = rng.randint(16 - digits + 1, 25)  # large: repr uses a positive exponent
+    else:
+        e = rng.randint(-4, 12)
+    v = float("%de%d" % (m, e))
+    return -v if rng.random() < 0.3 else v
+
+
+def float_class(v):
+    """'fixed15' when the number has at most 15 fractional digits (its '.15f' rendering reads back as itself),
+    else 'beyond15' (known finding C03-F3 of the pinned tree)."""
+    return "fixed15" if float(format(v, ".15f")) == v else "beyond15"
+
+
+def gen_float_cases(rng, n):
+    cases = []
+    while len(cases) < n:
+        doc = ed.gen_doc(rng)
+        nodes = [(a, nd) for a, nd in ed.all_addrs(doc) if nd["k"] not in ("map", "seq", "set")]
+        if not nodes:
+            continue
+        for _ in range(3):
+            if rng.random() < 0.75:
+                a, _nd = rng.choice(nodes)
+                path = ed.path_of_addr(a, rng, doc)
+            else:
+                path = ed.gen_path(rng, doc)
+            cases.append({"floatset": True, "doc": doc, "path": path, "fv": repr(gen_float(rng)), "mode": rng.choice(FLOAT_MODES)})
+    return cases
+
+
+def node_at(j, addr):
+    for kind, ref in addr:
+        if kind == "k":
+            j = [v for k, v in j["e"] if k == ref and type(k) is type(ref)][0]
+        elif kind == "i":
+            j = j["i"][ref]
+        else:
+            raise codec.OutOfModel("set member")
+    return j
+
+
+def float_spec(j, addrs, newj):
+    """Plain-data specification: the nodes at addrs and every scalar carrying the anchor of one of them become newj
+    (anchor kept); nothing else changes."""
+    tset = set(json.dumps(a) for a in addrs)
+    anchors = set(node_at(j, a).get("a") for a in addrs) - {None}
+
+    def walk(n, addr):
+        k = n["k"]
+        if k == "map":
+            out = {"k": "map", "e": [[kk, walk(v, addr + [["k", kk]])] for kk, v in n["e"]]}
+        elif k == "seq":
+            out = {"k": "seq", "i": [walk(v, addr + [["i", i]]) for i, v in enumerate(n["i"])]}
+        elif k == "set":
+            out = dict(n)
+        else:
+            if json.dumps(addr) in tset or n.get("a") in anchors:
+                out = dict(newj)
+                if n.get("a"):
+                    out["a"] = n["a"]
+                return out
+            return dict(n)
+        if n.get("a"):
+            out["a"] = n["a"]
+        return out
+    return walk(j, [])
+
+
+def float_case(case, bump, viol, keys):
+    from yamlpath import Processor
+    from yamlpath.enums import YAMLValueFormats
+    j, path, mode = case["doc"], case["path"], case["mode"]
+    v = float(case["fv"])
+    cls = float_class(v)
+    g = ed.gather(j, path, "set")
+    if g[0] != "ok" or not g[1]:
+        bump("float-set:skipped:" + (g[0] if g[0] != "ok" else "no-match"))
+        return
+    addrs = [p[0] for p in g[1]]
+    if any(p[1] for p in g[1]) or ed.nested(addrs) or not all(a for a in addrs):
+        bump("float-set:skipped:name-nested-or-root")
+        return
+    try:
+        if any(node_at(j, a)["k"] in ("map", "seq", "set") for a in addrs):
+            bump("float-set:skipped:container-target")
+            return
+    except (IndexError, KeyError):
+        bump("float-set:skipped:unaddressable")
+        return
+    pre = ed.dump_reload(ed.build(j))
+    reload_leg = pre[0] == "ok" and pre[1] == codec.strip_anchors(j)
+    doc = ed.build(j)
+    proc = Processor(core.quiet_logger(), doc)
+    if mode == "obj":
+        res = ed.guarded(lambda: proc.set_value(path, v, mustexist=True))
+    elif mode == "text":
+        res = ed.guarded(lambda: proc.set_value(path, case["fv"], mustexist=True))
+    else:
+        res = ed.guarded(lambda: proc.set_value(path, case["fv"], mustexist=True, value_format=YAMLValueFormats.FLOAT))
+    rep = dict(case, addrs=addrs)
+    what = "set_value(%s, %s%s) [float repr %s, %s]" % (path, case["fv"] if mode == "obj" else repr(case["fv"]),
+                                                          ", FLOAT" if mode == "fmt" else "", case["fv"], cls)
+    bump("float-set:%s:%s:%s" % (cls, "exp-repr" if "e" in case["fv"] else "plain-repr", mode))
+    bump("float-set:impl:" + res[0].split(":")[0])
+    if res[0] == "timeout":
+        viol.append(("timeout", what + " did not finish", rep))
+        return
+    if res[0] != "ok":
+        viol.append(("float-set:%s@%s" % (res[0], res[1]), what + " raised %s (%s)" % (res[0], res[1]), rep))
+        return
+    after = ed.snapshot(proc.data)
+    want = float_spec(j, addrs, codec.scalar_to_json(v))
+    if after != want:
+        viol.append(("float-set:" + classify(j, want, after), what + ": the document in memory differs from 'matched "
+                     "nodes and their aliases hold the number, nothing else changed'", rep))
+        return
+    keys.append(_key(dict(case, v=case["fv"], fmt=mode)))
+    if not reload_leg:
+        bump("float-set:reload:skipped-original-does-not-roundtrip")
+        return
+    rl = ed.dump_reload(proc.data)
+    bump("float-set:reload:" + rl[0])
+    known = ":beyond-15-fraction-digits" if cls == "beyond15" else ""
+    if rl[0] in ("dump-failed", "reload-failed", "reload-crashed"):
+        viol.append(("float-set:reload:" + rl[0] + known, what + ": the edited document does not dump/reload with yamlpath's "
+                     "own editor and strict loader: %r" % rl[2][:200], rep))
+    elif rl[0] == "ok" and rl[1] != codec.strip_anchors(after):
+        got = sorted(set(json.dumps(node_at(rl[1], a)) for a in addrs if _has(rl[1], a)))
+        viol.append(("float-set:reload:written-number-differs" + known,
+                     what + ": dump + strict reload holds %s, written %s: %r" % (got, case["fv"], rl[2][:200]), rep))
+
+
+def _has(j, addr):
+    try:
+        node_at(j, addr)
+        return True
+    except Exception:
+        return False
+
+
 # --------------------------------------------------------------------------- single edits
 
 def real_set(j, path, v, fmt, reload_leg):
@@ -544,6 +719,13 @@ def _job(cases):
             stats["n"] += 1
             try:
                 merge_case(case, bump, viol, keys)
+            except codec.OutOfModel:
+                stats["oom"] += 1
+            continue
+        if case.get("floatset"):
+            stats["n"] += 1
+            try:
+                float_case(case, bump, viol, keys)
             except codec.OutOfModel:
                 stats["oom"] += 1
             continue
